@@ -120,7 +120,7 @@ class Ctx:
         self.log("R1", name or root, r.summary())
         if r.errors or r.timed_out or r.rc is None:
             raise Inconclusive(f"R1 {name or root}: errors={r.errors[:2]} timeout={r.timed_out}\n{r.stdout[-1500:]}")
-        if r.generated == 0:
+        if r.generated == 0 and not (expect_violation and r.violations):
             raise Inconclusive(f"R1 {name or root}: no states\n{r.stdout[-1500:]}")
         self.states += r.distinct
         self.transitions += r.generated
